@@ -10,7 +10,9 @@ names are rejected."
 Theorems: `C19_table_watson_crick`, `C19_table_involution`, `C19_table_eq` (finite table facts, `decide`);
 `C19_complement` (model = specification, literally, for every strand; induction over the loop),
 `C19_second_strand` (what that means residue by residue and edge by edge), `C19_reject`,
-`C19_involutive`, `C19_involutive_model`, `C19_spec_defined_iff`, `C19_labels_literal`.
+`C19_involutive`, `C19_involutive_model`, `C19_spec_defined_iff`, `C19_labels_literal`;
+for residue graphs whose node keys start at any `k0` (`.json` input): `C19_complement_offset`,
+`C19_reject_offset`, `C19_offset_zero`, `C19_key_shift_equivariant`.
 The model (`Model/Dna.lean`) is tied to the real code by the correspondence in `harness/c19.py`.
 
 Property theorems only (helper lemmas live in Proofs/).  Each theorem is followed by a non-vacuity
@@ -206,5 +208,64 @@ example := C19_involutive_model ["DA5", "DC", "DG3"] [[("a", "1")], []] none (by
 -- by evaluation (a test): complement of the complement of DA5-DC-DG3
 example : (match complement Tables.baseLibrary (strandGraph ["DC5", "DG", "DT3"] [] none) with
     | .ok g => some ((g.nodes.drop 3).map (·.resname)) | .error _ => none) = some ["DA5", "DC", "DG3"] := by decide
+
+/-! ### node keys that do not start at 0 (`.json` sequence files) -/
+
+/-- **Main theorem for arbitrary first node key (unbounded in `k0` and in the strand).**  For every `k0`,
+on the strand whose node keys are `k0..k0+n-1` (resids `1..n`) the model returns literally
+`specGraphFrom k0`: the strand unchanged, new nodes with keys `k0+n..k0+2n-1` and resids `n+1..2n` named
+by the antiparallel Watson–Crick complement, edges `(k0+n+k, k0+n+k+1)` with the mirrored labels, closing
+edge `(k0+2n-1, k0+n)` iff circular.  Proof: `Proofs.Dna.complement_shift` (the model commutes with
+renaming the keys `x ↦ x + k0` of any residue graph) applied to `C19_complement`'s graph. -/
+theorem C19_complement_offset (k0 : Nat) (names : List String) (labels : List Attrs) (circ : Option Attrs)
+    (hn : 1 ≤ names.length) (hc : circ.isSome → 3 ≤ names.length)
+    (hk : ∀ nm ∈ names, (lookup Tables.baseLibrary nm).isSome) :
+    ∃ g, specGraphFrom k0 watsonCrick names labels circ = some g ∧
+      complement Tables.baseLibrary (strandGraphFrom k0 names labels circ) = .ok g := by
+  rw [← Proofs.Dna.specGraphFrom_congr k0 Tables.baseLibrary watsonCrick C19_table_eq]
+  exact Proofs.Dna.complement_offset k0 Tables.baseLibrary names labels circ hn hc hk
+
+example : ∃ g, specGraphFrom 7 watsonCrick ["DA5", "DC", "DG3"] [[("a", "1")], [("b", "2")]] none = some g ∧
+    complement Tables.baseLibrary (strandGraphFrom 7 ["DA5", "DC", "DG3"] [[("a", "1")], [("b", "2")]] none) = .ok g :=
+  C19_complement_offset 7 _ _ _ (by decide) (by decide) (by decide)
+
+example : ∃ g, specGraphFrom 4 watsonCrick ["DA", "DC", "DG", "DT"] [] (some [("linktype", "circle")]) = some g ∧
+    complement Tables.baseLibrary (strandGraphFrom 4 ["DA", "DC", "DG", "DT"] [] (some [("linktype", "circle")])) = .ok g :=
+  C19_complement_offset 4 _ _ _ (by decide) (by decide) (by decide)
+
+-- by evaluation (a test): keys 1..3 get the complement on keys 4..6, resids 4..6
+example : (complement Tables.baseLibrary (strandGraphFrom 1 ["DA5", "DC", "DG3"] [[("a", "1")], []] none)).toOption =
+    some ⟨[⟨1, 1, "DA5"⟩, ⟨2, 2, "DC"⟩, ⟨3, 3, "DG3"⟩, ⟨4, 4, "DC5"⟩, ⟨5, 5, "DG"⟩, ⟨6, 6, "DT3"⟩],
+         [⟨1, 2, [("a", "1")]⟩, ⟨2, 3, []⟩, ⟨4, 5, []⟩, ⟨5, 6, [("a", "1")]⟩], 6⟩ := by decide
+
+/-- `C19_complement` is the `k0 = 0` instance: the two strand graphs and the two specifications coincide. -/
+theorem C19_offset_zero (names : List String) (labels : List Attrs) (circ : Option Attrs) :
+    strandGraphFrom 0 names labels circ = strandGraph names labels circ ∧
+    specGraphFrom 0 watsonCrick names labels circ = specGraph watsonCrick names labels circ :=
+  ⟨Proofs.Dna.strandGraphFrom_zero names labels circ, Proofs.Dna.specGraphFrom_zero watsonCrick names labels circ⟩
+
+example : strandGraphFrom 0 ["DA5", "DG3"] [[("a", "1")]] none = ⟨[⟨0, 1, "DA5"⟩, ⟨1, 2, "DG3"⟩], [⟨0, 1, [("a", "1")]⟩], 2⟩ := by
+  decide
+
+/-- **Rejection for arbitrary first node key.** -/
+theorem C19_reject_offset (k0 : Nat) (names : List String) (labels : List Attrs) (circ : Option Attrs)
+    (hn : 1 ≤ names.length) (hc : circ.isSome → 3 ≤ names.length)
+    (hbad : ∃ nm ∈ names, lookup watsonCrick nm = none) :
+    complement Tables.baseLibrary (strandGraphFrom k0 names labels circ) = .error "unknown-resname" := by
+  apply Proofs.Dna.complement_reject_offset k0 Tables.baseLibrary names labels circ hn hc
+  obtain ⟨nm, hm, hnone⟩ := hbad
+  exact ⟨nm, hm, by rw [C19_table_eq]; exact hnone⟩
+
+example : complement Tables.baseLibrary (strandGraphFrom 4 ["DA5", "XYDC", "DG3"] [] none) = .error "unknown-resname" :=
+  C19_reject_offset 4 _ _ _ (by decide) (by decide) ⟨"XYDC", by decide, by decide⟩
+
+/-- **Equivariance (the reason the offset does not matter).**  For *every* residue graph — not only
+strands — renaming the node keys `x ↦ x + k` commutes with the model of `complement_dsDNA`. -/
+theorem C19_key_shift_equivariant (g : RGraph) (k : Nat) :
+    complement Tables.baseLibrary (g.shiftKeys k) = (complement Tables.baseLibrary g).map (·.shiftKeys k) :=
+  Proofs.Dna.complement_shift Tables.baseLibrary g k
+
+example : (strandGraph ["DA", "DC", "DG"] [] (some [])).shiftKeys 4 = strandGraphFrom 4 ["DA", "DC", "DG"] [] (some []) := by
+  decide
 
 end PolyplyVerif.C19
